@@ -60,6 +60,12 @@ def drivers(rec, item):
             rec.paths += 1
             obj, cl, cont, globals_same, clocks = pr.value
             k = len(cl)
+            fpw = [e for e in I.events if e[0] == "fpenv_write"]
+            rec.oblig("%s leaves the floating-point environment (rounding / flush-to-zero modes) alone: the arithmetic of an iteration does not depend on which driver executes it" % driver,
+                      "holds" if not fpw else "violated", [e[2] for e in fpw][:2], 0, desc)
+            if fpw:
+                rec.violation("driver-changes-fp-environment:%s" % driver, "%s changes the floating-point environment (%s at %s) around the iterations it runs: the same script gives different binary64 results under "
+                              "run() and under iterate() / iterate_n() (%s)" % (driver, fpw[0][1], fpw[0][2], desc), {"structure": desc, "where": fpw[0][2]}, replayed=_replay_subnormal_slicing())
             ok_target = all(c[0] is obj for c in cl)
             rec.oblig("%s calls Iterate() on the current simulation only and leaves the engine globals alone" % driver, "holds" if (ok_target and globals_same) else "violated", k, 0, desc)
             if not (ok_target and globals_same):
@@ -202,6 +208,38 @@ def no_stale_state(rec, item):
 
 
 _hist = {}
+
+
+_subn = {}
+
+
+def _replay_subnormal_slicing():
+    """real build, deterministic engine: an irreversible decay whose tail runs through the subnormal range (and a diffusion front from a
+    point source), driven by iterate() alone, by run(0) alone and by a mixed schedule: bit-identical?"""
+    if "r" in _subn:
+        return _subn["r"]
+    try:
+        from strengths import RDNetwork, Species, Reaction, RDSystem, RDGridSpace, RDScript
+        from ..glue import real_engine
+        net = RDNetwork(species=[Species("A", D=0.25), Species("B", D=0)], reactions=[Reaction("A -> B", kf=1.0)])
+        sysm = RDSystem(net, RDGridSpace(w=3, h=1, d=1, cell_vol=1.0), state=[3e-306, 0, 0, 0, 0, 0])
+        outs = []
+        for mode in range(3):
+            e = real_engine("euler")
+            e.setup(RDScript(sysm, [0.0, 8.0, 16.0, 24.0], time_step=0.5, sampling_policy="on_iteration", init_state_processing="none"))
+            k = 0
+            while True:
+                k += 1
+                more = e.iterate() if mode == 0 or (mode == 2 and k % 3 == 0) else (e.run(0) if mode == 1 or k % 3 == 1 else e.iterate_n(2))
+                if not more or k > 10000:
+                    break
+            o = e.get_output()
+            e.finalize()
+            outs.append(repr([float(v).hex() for v in o.data.value]))
+        _subn["r"] = len(set(outs)) > 1
+    except Exception:
+        _subn["r"] = False
+    return _subn["r"]
 
 
 def _replay_history_dependence():
